@@ -1,14 +1,222 @@
-import MV.Model.Scheduler
-/-! # C08 (work in progress) -/
+import MV.Lemmas.SchedulerExt
+/-!
+# C08 — actor timers fire as often as configured, not early, and die with their registration
+
+All statements are about `MV.Model.Scheduler`, the transcription of `toolkit/chrono/scheduler.go` and
+`scheduler_task.go` over the abstract timing wheel (the model's only assumption about the library:
+a timer with expiration `e` leaves the wheel at a time `t ≥ e - e % tick`, and only while the wheel
+runs).  `Reach s` quantifies over EVERY sequence of API calls (register / replace / unregister /
+clear / close with arbitrary arguments), clock advances and wheel events (`expire i`: timer `i`
+leaves the wheel; `run i`: its goroutine executes) — i.e. every interleaving of the scheduler's
+callers with the wheel at the granularity of whole API calls (each of them holds `s.lock`), with
+cancellation allowed at every phase of a task's life, including between `expire` and `run`.
+`fired s i` counts the executions of `function.Call` of task object `i`, which in the actor runtime
+is the *posting* of the callback to the owner's mailbox (`MV.Model.TimerFacts`, suite `timer-facts`).
+-/
 namespace MV.Props.C08
 open MV.Model.Scheduler
 
-/-- `UnregisterTask`, `Clear` never panic; `Close` panics exactly when the wheel was already stopped. -/
+/-- **Counting.** A task registered with `times = N > 0` (non-cron) never fires more than `N` times —
+whatever happens.  While it has not been cancelled it is in exactly one of two states: its timer is
+idle and it has fired exactly `N` times; or its timer is pending / in flight, it has fired `k < N`
+times and the pending expiration is `base + after + k * interval` (so each further `expire`/`run`
+pair — which the wheel owes once the expiration has passed — adds exactly one firing until `N`). -/
+theorem C08_count_N (s : Sched) (hr : Reach s) (i : Nat) (hi : i < s.nobjs)
+    (hc : (s.objs i).cron = none) (N : Nat) (hN : 0 < N) (ht : (s.objs i).total = (N : Int)) :
+    fired s i ≤ N ∧
+    ((s.objs i).kill = false →
+      ((s.objs i).timer = .idle ∧ fired s i = N) ∨
+      (fired s i < N ∧ ∃ e, ((s.objs i).timer = .pending e ∨ (s.objs i).timer = .inflight e) ∧
+        e = (s.objs i).base + (s.objs i).after + fired s i * (s.objs i).interval)) := by
+  obtain ⟨h1, h2, h3⟩ := hr.inv.ok i hi hc
+  have hb := h1 (by omega)
+  refine ⟨?_, fun hk => ?_⟩
+  · cases hk : (s.objs i).kill
+    · rcases h3 hk with ⟨e, _, hf, _⟩ | ⟨_, _, _, hf⟩ <;> omega
+    · have := h2 hk; omega
+  · rcases h3 hk with ⟨e, hte, hf, he⟩ | ⟨hidle, _, htr, hf⟩
+    · right
+      refine ⟨by omega, e, hte, ?_⟩
+      have : (s.objs i).trigger - 1 = fired s i := by omega
+      rw [he, this]
+    · left; exact ⟨hidle, by omega⟩
+
+/-- **Forever.** A task with `times ≤ 0` that has not been cancelled always has its next run
+scheduled: after `k` firings the pending expiration is `base + after + k * interval`. -/
+theorem C08_forever (s : Sched) (hr : Reach s) (i : Nat) (hi : i < s.nobjs)
+    (hc : (s.objs i).cron = none) (ht : (s.objs i).total ≤ 0) (hk : (s.objs i).kill = false) :
+    ∃ e, ((s.objs i).timer = .pending e ∨ (s.objs i).timer = .inflight e) ∧
+      e = (s.objs i).base + (s.objs i).after + fired s i * (s.objs i).interval := by
+  obtain ⟨_, _, h3⟩ := hr.inv.ok i hi hc
+  rcases h3 hk with ⟨e, hte, hf, he⟩ | ⟨_, hpos, _, _⟩
+  · refine ⟨e, hte, ?_⟩
+    have : (s.objs i).trigger - 1 = fired s i := by omega
+    rw [he, this]
+  · omega
+
+/-- **One-shot** (`RegisterAfterTask`, `times = 1`): at most one firing ever; exactly one once the
+timer has come to rest without a cancellation. -/
+theorem C08_once (s : Sched) (hr : Reach s) (i : Nat) (hi : i < s.nobjs)
+    (hc : (s.objs i).cron = none) (ht : (s.objs i).total = 1) :
+    fired s i ≤ 1 ∧ ((s.objs i).kill = false → (s.objs i).timer = .idle → fired s i = 1) := by
+  obtain ⟨h1, h2⟩ := C08_count_N s hr i hi hc 1 (by omega) (by simpa using ht)
+  refine ⟨h1, fun hk hidle => ?_⟩
+  rcases h2 hk with ⟨_, hf⟩ | ⟨_, e, hte, _⟩
+  · exact hf
+  · rcases hte with h | h <;> rw [hidle] at h <;> cases h
+
+/-- `RegisterAfterTask(name, d, …)` on a scheduler that has not been closed creates such a one-shot
+    task (object index `s.nobjs`); on a closed scheduler it does nothing. -/
+theorem C08_once_registers (s : Sched) (n : Nat) (d : Int) (hlive : s.stopped = false) :
+    let s' := (step s (.reg n d s.tick 1)).1
+    s'.nobjs = s.nobjs + 1 ∧ s'.table n = some s.nobjs ∧ (s'.objs s.nobjs).total = 1 ∧
+    (s'.objs s.nobjs).cron = none ∧ (s'.objs s.nobjs).kill = false := by
+  obtain ⟨_, hn, htab, hobj⟩ := register_frame s n d s.tick none 1 hlive
+  have hs := Task.schedule_fields (Task.fresh n (durMs s.tick none d) (durMs s.tick none s.tick) 1 none s.now) s.now
+  simp only [step]
+  rw [hobj]
+  exact ⟨hn, htab, hs.2.2.2.1, hs.2.2.2.2.1, hs.2.2.2.2.2.2⟩
+
+/-- **A cancelled task never fires again**, whatever happens afterwards (`kill` is never cleared and
+`caller()` honours it; nobody sets `separate`). -/
+theorem C08_killed_never_fires (s : Sched) (i : Nat) (hi : i < s.nobjs) (hk : (s.objs i).kill = true)
+    (evs : List Ev) : fired (runEvents s evs) i = fired s i :=
+  (Ext_runEvents s evs).frozen i hi hk
+
+/-- **Replacement.** Re-registering a name kills the task that held it: from the moment `task()`
+returns the old task object never fires again, and the name designates the new object. -/
+theorem C08_replace (s : Sched) (hr : Reach s) (n i : Nat) (h : s.table n = some i)
+    (a iv times : Int) (evs : List Ev) :
+    let s' := (step s (.reg n a iv times)).1
+    s'.table n = some s.nobjs ∧ fired s' i = fired s i ∧ fired (runEvents s' evs) i = fired s i := by
+  have hi := (hr.inv.tbl n i h).1
+  obtain ⟨hkill, htab⟩ := register_kills s n i a iv none times hr.inv h
+  have hlog : fired (register s n a iv none times) i = fired s i := by
+    unfold fired; rw [register_log s n a iv none times]
+  have hi' : i < (register s n a iv none times).nobjs := Nat.lt_of_lt_of_le hi (Ext_register s n a iv none times).nobjs
+  exact ⟨htab, hlog, (C08_killed_never_fires _ i hi' hkill evs).trans hlog⟩
+
+/-- **Cancellation.** If the registration of task `i` is ended (`UnregisterTask`, a new registration of
+the name, `Clear`, `Close`) while the clock is still at least one tick before its first due time,
+the task never fires: not before (`C08_not_early`), not after. -/
+theorem C08_cancel (s : Sched) (hr : Reach s) (i : Nat) (hi : i < s.nobjs)
+    (hc : (s.objs i).cron = none) (hearly : s.now + s.tick ≤ (s.objs i).base + (s.objs i).after)
+    (ev : Ev) (hcan : Cancels s i ev) (evs : List Ev) :
+    fired (runEvents (step s ev).1 evs) i = 0 := by
+  have hinv := hr.inv
+  have h0 : fired s i = 0 := by
+    unfold fired
+    rw [List.countP_eq_zero]
+    intro f hf hid
+    simp only [decide_eq_true_eq] at hid
+    obtain ⟨a, b, c⟩ := hinv.logt f hf
+    rw [hid] at c
+    obtain ⟨k, hk⟩ := c hc
+    have := Nat.mod_lt f.exp hinv.tick_pos
+    have hk' : (s.objs i).base + (s.objs i).after ≤ f.exp := by rw [hk]; omega
+    omega
+  have hk := cancel_kills s i ev hinv hi hcan
+  have hext := Ext_step s ev
+  have hi' : i < (step s ev).1.nobjs := Nat.lt_of_lt_of_le hi hext.nobjs
+  rw [C08_killed_never_fires _ i hi' hk evs]
+  have hm : fired (step s ev).1 i = fired s i := by
+    cases hkk : (s.objs i).kill
+    · -- the cancelling events themselves never call the task's function
+      cases ev with
+      | unreg n => simp only [step, fired, (unregister_frame s n).2.2.2.1]
+      | reg n a iv times => simp only [step, fired, register_log s n a iv none times]
+      | regCron n p => simp only [step, fired, register_log s n 0 0 (some p) 0]
+      | clear => rfl
+      | close => simp only [step, close]; split <;> rfl
+      | advance dt => cases hcan
+      | expire j => cases hcan
+      | run j => cases hcan
+    · exact hext.frozen i hi hkk
+  rw [hm, h0]
+
+/-- **Totality.** `UnregisterTask`, `Clear`, `Close` and the registrations never panic or block in
+any state of the model: after `71713ac` `close()` never dereferences a nil timer, after `1e829e9`
+`Close` is idempotent and does not wait for the timing wheel (whose `Stop` can block for ever —
+outside the model, found by the suite as a hang: `MV.Findings.C08`). -/
 theorem C08_close_total (s : Sched) :
     (∀ n, (step s (.unreg n)).2 = .ok) ∧ (step s .clear).2 = .ok ∧
-    ((step s .close).2 = .ok ↔ s.stopped = false) := by
-  refine ⟨fun _ => rfl, rfl, ?_⟩
+    (∀ n a iv k, (step s (.reg n a iv k)).2 = .ok) ∧ (step s .close).2 = .ok := by
+  refine ⟨fun _ => rfl, rfl, fun _ _ _ _ => rfl, ?_⟩
   simp only [step, close]
   cases s.stopped <;> simp
+
+/-- A closed scheduler is inert: registrations are ignored (`if s.closed { return }`). -/
+theorem C08_closed_ignores (s : Sched) (hs : s.stopped = true) (n : Nat) (a iv k : Int) :
+    (step s (.reg n a iv k)).1 = s := by
+  simp [step, register, hs]
+
+/-- After `Close`/`Clear` nothing is left registered, and every task object is cancelled. -/
+theorem C08_clear_kills_all (s : Sched) (hr : Reach s) (i : Nat) (hi : i < s.nobjs) :
+    ((step s .clear).1.objs i).kill = true ∧ ((step s .close).1.objs i).kill = true ∧
+    (∀ n, (step s .clear).1.table n = none) ∧ (∀ n, (step s .close).1.table n = none) := by
+  have h := clear_all_killed s hr.inv i hi
+  refine ⟨h, ?_, fun _ => rfl, fun _ => ?_⟩
+  · simp only [step, close]; split <;> exact h
+  · simp only [step, close]; split <;> rfl
+
+/-- **Not early.** Every firing happens at a time `t` with `t > exp - tick`, where `exp` is the
+expiration of the timer run that produced it, and `exp = base + after + k * interval` for some `k`:
+no firing of a task comes a whole tick before its `k`-th due time, in particular none before
+`base + after - tick`.  (The library bound itself — a firing may come up to, but excluding, one tick
+before its due time — is the known deviation from "not early".) -/
+theorem C08_not_early (s : Sched) (hr : Reach s) (f : Firing) (hf : f ∈ s.log) :
+    f.exp < f.time + s.tick ∧ f.time ≤ s.now ∧
+    ((s.objs f.id).cron = none →
+      ∃ k, f.exp = (s.objs f.id).base + (s.objs f.id).after + k * (s.objs f.id).interval ∧
+        (s.objs f.id).base + (s.objs f.id).after + k * (s.objs f.id).interval < f.time + s.tick) := by
+  obtain ⟨a, b, c⟩ := hr.inv.logt f hf
+  have hm := Nat.mod_lt f.exp hr.inv.tick_pos
+  have h1 : f.exp < f.time + s.tick := by omega
+  refine ⟨h1, b, fun hc => ?_⟩
+  obtain ⟨k, hk⟩ := c hc
+  exact ⟨k, hk, by omega⟩
+
+/-- **Nothing is posted after `Close`.** Once the wheel has been stopped no task function is called
+any more, whatever happens: the log of `function.Call`s — the posts to the owner's mailbox — never
+grows.  (The *turn* of a callback that was posted before `Close` is the actor's business:
+`MV.Props.C08.C08_not_after_terminated` in `Props/C08Actor.lean`.) -/
+theorem C08_no_post_after_close (s : Sched) (hr : Reach s) (hs : s.stopped = true) (evs : List Ev) :
+    (runEvents s evs).log = s.log ∧ (runEvents s evs).stopped = true := by
+  induction evs generalizing s with
+  | nil => exact ⟨rfl, hs⟩
+  | cons ev evs ih =>
+    have hl := log_stopped_step s ev hr.inv hs
+    have hs' := (Ext_step s ev).stopped hs
+    obtain ⟨a, b⟩ := ih _ (hr.step ev) hs'
+    exact ⟨a.trans hl, b⟩
+
+/-- `Close` stops the wheel (when it was running), so the previous theorem applies from there on. -/
+theorem C08_close_stops (s : Sched) : (step s .close).1.stopped = true ∨ s.stopped = true := by
+  simp only [step, close]
+  cases h : s.stopped <;> simp
+
+/-! ## Non-vacuity -/
+
+/-- a scheduler with tick 10: `RegisterRepeatedTask("0", 35ms, 20ms, 3)` registered at time 0 has the
+due times 35, 55, 75; the wheel may run them from 30, 50, 70 on (here: at 30, 55 and 70). -/
+def demo : Sched :=
+  runEvents (init 10) [.reg 0 35 20 3, .advance 30, .expire 0, .run 0, .advance 25, .expire 0, .run 0,
+    .advance 15, .expire 0, .run 0, .advance 100, .expire 0, .run 0]
+
+example : Reach demo := ⟨10, _, by decide, rfl⟩
+example : fired demo 0 = 3 ∧ (demo.objs 0).timer = .idle ∧ (demo.objs 0).kill = false := by decide
+example : demo.log.map (fun f => (f.exp, f.time)) = [(75, 70), (55, 55), (35, 30)] := by decide
+/-- a whole tick early is impossible: at time 29 the wheel cannot take the timer with expiration 35 -/
+example : fired (runEvents (init 10) [.reg 0 35 20 3, .advance 29, .expire 0, .run 0]) 0 = 0 := by decide
+/-- cancel between `expire` and `run`: the goroutine was started, the callback is suppressed -/
+example : fired (runEvents (init 10) [.reg 0 30 20 3, .advance 30, .expire 0, .unreg 0, .run 0, .advance 100]) 0 = 0 := by
+  decide
+/-- replace: the old object stops, the new one fires -/
+example : (fun s => (fired s 0, fired s 1)) (runEvents (init 10)
+    [.reg 0 30 20 (-1), .advance 30, .expire 0, .run 0, .reg 0 30 20 1, .advance 40, .expire 0, .run 0, .expire 1, .run 1])
+    = (1, 1) := by decide
+/-- `Close` twice: both fine; a registration afterwards is ignored -/
+example : (step (init 10) .close).2 = .ok ∧ (step (step (init 10) .close).1 .close).2 = .ok ∧
+    (runEvents (init 10) [.close, .reg 0 30 20 3]).nobjs = 0 := by decide
 
 end MV.Props.C08
